@@ -627,10 +627,14 @@ class Interp(object):
                 # class-level constant
                 for c in self.repo.mro(base.cls):
                     if attr in c.class_consts:
-                        try:
-                            return ast.literal_eval(c.class_consts[attr])
-                        except Exception:
-                            break
+                        # one object per class attribute and interpreter (a class-level dict is shared by all instances)
+                        cache = self.__dict__.setdefault('_class_values', {})
+                        if (c.name, attr) not in cache:
+                            try:
+                                cache[(c.name, attr)] = ast.literal_eval(c.class_consts[attr])
+                            except Exception:
+                                break
+                        return cache[(c.name, attr)]
                 if base.fields.get('__strict__') and not self.class_may_have(base.cls, attr):
                     raise Raise('AttributeError', node, self.where(node, frame), value='%s object has no attribute %s' % (base.cls, attr))
             return Top('attr:' + attr)
